@@ -57,7 +57,7 @@ META = dict(
     assumptions=["SQLite", "single session", "cascade on the reverse many-to-one side is the default"],
     bounds=dict(
         quick="U1: all 48 configurations, U3: 26, U2: 17; histories <= 2 ops after 2-3 roots (empty, populated+committed, pending graph), autoflush on (+ off for the common cascades); expire/refresh probes at every clean state",
-        thorough="U1 / U3: all 48, U2: all 32 configurations; histories <= 2 ops after 3 roots, autoflush on and off; <= 3 ops for 7 U1 configurations after the populated root",
+        thorough="U1 / U3: all 48, U2: all 32 configurations; histories <= 2 ops after 3 roots, autoflush on and off; <= 3 ops for 4 U1 configurations after the populated root",
     ),
 )
 SHARD_TIMEOUT = dict(quick=600, thorough=3000)
@@ -66,7 +66,7 @@ OPTS = ("save-update", "merge", "expunge", "delete", "refresh-expire")
 KINDS = ("add", "rel", "delete", "expunge", "merge", "flush", "commit")
 
 
-DEEP = ("save-update, delete, delete-orphan", "save-update, delete", "save-update, expunge", "none")
+DEEP = ("save-update, delete, delete-orphan",)
 
 
 def cascade_strings(orphan=True):
